@@ -52,7 +52,10 @@ func vopts(c Case) openapi3filter.Options {
 	return openapi3filter.Options{ExcludeResponseBody: c.VOpts&1 != 0, IncludeResponseStatus: c.VOpts&2 != 0, MultiError: c.VOpts&4 != 0}
 }
 
-const specJSON = `{"openapi":"3.0.3","info":{"title":"t","version":"1"},"paths":{"/r":{"head":{"responses":{"200":{"description":"ok"}}},"post":{
+const specJSON = `{"openapi":"3.0.3","info":{"title":"t","version":"1"},"paths":{"/pl/{id}":{"parameters":[{"name":"id","in":"path","required":true,"schema":{"type":"integer"}},{"name":"X-Need","in":"header","required":true,"schema":{"type":"string"}}],
+ "post":{"responses":{"200":{"description":"ok","content":{"application/json":{"schema":{"type":"object","required":["ok"],"properties":{"ok":{"type":"boolean"},"m":{"type":"string"}},"additionalProperties":false}}}},"201":{"description":"created"},
+  "418":{"description":"teapot","headers":{"X-Tea":{"required":true,"schema":{"type":"string"}}}}}}},
+ "/r":{"head":{"responses":{"200":{"description":"ok"}}},"post":{
  "parameters":[{"name":"q","in":"query","required":true,"schema":{"type":"integer"}}],
  "responses":{
   "200":{"description":"ok","content":{"application/json":{"schema":{"type":"object","required":["ok"],"properties":{"ok":{"type":"boolean"},"m":{"type":"string"}},"additionalProperties":false}}}},
@@ -96,6 +99,15 @@ func request(kind string) *http.Request {
 		return httptest.NewRequest("POST", "http://localhost/nowhere?q=1", nil)
 	case "invalid":
 		return httptest.NewRequest("POST", "http://localhost/r?q=notanint", nil)
+	case "invalid-pl":
+		// the operation declares nothing itself: what is violated is declared on the path item
+		return httptest.NewRequest("POST", "http://localhost/pl/notanint", nil)
+	case "invalid-pl-header":
+		return httptest.NewRequest("POST", "http://localhost/pl/7", nil)
+	case "valid-pl":
+		r := httptest.NewRequest("POST", "http://localhost/pl/7", nil)
+		r.Header.Set("X-Need", "here")
+		return r
 	}
 	return httptest.NewRequest("POST", "http://localhost/r?q=1", nil)
 }
@@ -180,7 +192,7 @@ func check(c Case) (o h.Outcome) {
 
 	client := httptest.NewRecorder()
 	var errCalls []errCall
-	wantRun := c.Request == "valid"
+	wantRun := c.Request == "valid" || c.Request == "valid-pl"
 
 	if c.Front != "validator" {
 		// the older ValidationHandler: request-only gate
@@ -259,7 +271,7 @@ func check(c Case) (o h.Outcome) {
 	}
 	if !wantRun {
 		wantStatus, wantText := 404, "not found\n"
-		if c.Request == "invalid" {
+		if strings.HasPrefix(c.Request, "invalid") {
 			wantStatus, wantText = 400, "bad request\n"
 		}
 		if c.OnErr {
@@ -275,9 +287,14 @@ func check(c Case) (o h.Outcome) {
 	}
 	// the handler ran: is its response valid?
 	route, _ := kinx.Route(doc, "/r", "POST")
+	refReq := request("valid")
+	if c.Request == "valid-pl" {
+		route, _ = kinx.Route(doc, "/pl/{id}", "POST")
+		refReq = request("valid-pl")
+	}
 	vo := vopts(c)
 	rin := &openapi3filter.ResponseValidationInput{
-		RequestValidationInput: &openapi3filter.RequestValidationInput{Request: request("valid"), Route: route, Options: &vo},
+		RequestValidationInput: &openapi3filter.RequestValidationInput{Request: refReq, Route: route, Options: &vo},
 		Status:                 refStatus, Header: ref.Header(), Body: io.NopCloser(bytes.NewReader(refBody)), Options: &vo,
 	}
 	respErr := openapi3filter.ValidateResponse(context.Background(), rin)
@@ -439,7 +456,7 @@ func gen(t *rapid.T) Case {
 		}
 		s = append(s, a)
 	}
-	return Case{Request: rapid.SampledFrom([]string{"valid", "valid", "valid", "invalid", "unroutable"}).Draw(t, "request"), Script: s,
+	return Case{Request: rapid.SampledFrom([]string{"valid", "valid", "valid", "invalid", "unroutable", "valid-pl", "invalid-pl", "invalid-pl-header"}).Draw(t, "request"), Script: s,
 		Strict: rapid.Bool().Draw(t, "strict"), OnErr: rapid.Bool().Draw(t, "onerr"), Front: rapid.SampledFrom([]string{"validator", "validator", "validator", "handler-serve", "handler-middleware"}).Draw(t, "front"),
 		Prelude: rapid.SampledFrom([]string{"", "", "head", "invalid", "unroutable", "bad-response", "good-response"}).Draw(t, "prelude"),
 		VOpts:   rapid.SampledFrom([]int{0, 0, 1, 2, 3, 4, 5, 7}).Draw(t, "vopts")}
